@@ -4,7 +4,7 @@ from .lie_common import *   # noqa
 EXP_TARGETS = [(OP, 'so3_Exp.forward'), (OP, 'so3_Jl'), (OP, 'calcQ'), (OP, 'rxso3_Ws')]
 
 
-def rules(repo, tier):
+def _rules_core(repo, tier):
     out = rule_masks(repo, 'C01.MP', 'C01.GD', EXP_TARGETS, floor=10)
     out.append(rule_layout(repo, 'C01.LT', [
         ('so3_Exp', ['so3'], 'SO3'), ('se3_Exp', ['se3'], 'SE3'), ('rxso3_Exp', ['rxso3'], 'RxSO3'), ('sim3_Exp', ['sim3'], 'Sim3')], floor=4))
@@ -21,3 +21,11 @@ def rules(repo, tier):
     out.append(d)
     out.append(rule_dtype(repo, 'C01.DTYPE', EXP_TARGETS + [(OP, 'se3_Exp.forward'), (OP, 'sim3_Exp.forward'), (OP, 'rxso3_Exp.forward')], floor=7))
     return out
+
+
+def rules(repo, tier):
+    from ..memo import rule_memo
+    return list(_rules_core(repo, tier)) + [rule_memo(repo, 'C01.MEMO', 'history independence: nothing computed from the contents of a tensor argument is kept '
+                                                      'under the identity, address or version of that tensor, in module-level storage, or published from a generator '
+                                                      'before it is complete - a later call with the same object and other contents must not be answered from it',
+                                                      ['pypose.lietensor.lietensor', 'pypose.lietensor.operation', 'pypose.lietensor.basics', 'pypose.lietensor.utils'], floor=3)]
